@@ -9,6 +9,7 @@ statistics, sort keys) and item access inside expressions are modelled as they a
 they are known findings, see known_findings.json.
 -/
 import DTML.Render
+import DTML.Props.C10
 import DTML.Props.C08
 set_option linter.unusedVariables false
 namespace DTML.Props.C05
@@ -125,6 +126,44 @@ theorem in_item_guarded (env : Env) (hg : env.guardOn = true) (fuel : Nat) (sv :
   · intro hd hs
     simp only [inLoop, hni, if_false, hg, if_true, hd, hs]
     rfl
+
+/-- **the same for a batched / sorted / reversed dtml-in** (`renderwb`): every element of the window is fetched
+through the item guard — position `i` of the rearranged sequence — before anything of it is rendered; a refused element
+raises Unauthorized, or with skip_unauthorized is skipped without its body being rendered -/
+theorem batched_item_guarded (env : Env) (hg : env.guardOn = true) (fuel : Nat) (sv : SeqVars) (o : InOpts) (w : BWin)
+    (body : List Blk) (i : Nat) (st : St) (hi : i < w.stop) :
+    let st0 : St := { st with trace := st.trace ++ [.gitem 0 i] }
+    (itemDenied env sv i = true → o.skipUnauth = false →
+      inLoopB env (fuel + 1) sv o w body i st = (.raise ⟨"Unauthorized".toList, "item".toList⟩, st0)) ∧
+    (itemDenied env sv i = true → o.skipUnauth = true →
+      inLoopB env (fuel + 1) sv o w body i st =
+        inLoopB env fuel (afterItem (batchStep sv w i) w i) o w body (i + 1) st0) := by
+  intro st0
+  have hni : ¬ i ≥ w.stop := by omega
+  have hden : ∀ sv' : SeqVars, sv'.items = sv.items → itemDenied env sv' i = itemDenied env sv i := by
+    intro sv' h; simp [itemDenied, h]
+  have hbs : (batchStep sv w i).items = sv.items := (C10.Batched.batchStep_fields sv w i).1
+  constructor
+  · intro hd hs
+    simp only [inLoopB, hni, if_false, hg, if_true, hden _ hbs, hd, hs, Bool.false_eq_true]
+    rfl
+  · intro hd hs
+    simp only [inLoopB, hni, if_false, hg, if_true, hden _ hbs, hd, hs]
+    rfl
+
+/-- **finding C05-sort-key, as the model has it**: computing the sort keys of `sort=key` asks no guard — the keys are
+read with plain `getattr` / `.get`, so the order of a sorted loop depends on attributes the guard would refuse
+(the trace gains only the `call` events of callable keys) -/
+theorem sort_keys_ask_no_guard (env : Env) (m : Bool) (k : Text) (x : Val) (st : St) :
+    (sortKeyOf env m k x st).2.trace = st.trace ∨
+    ∃ id, (sortKeyOf env m k x st).2.trace = st.trace ++ [.call id] := by
+  unfold sortKeyOf
+  dsimp only
+  split
+  · rename_i id r _
+    right
+    exact ⟨id, by split <;> rfl⟩
+  all_goals exact Or.inl rfl
 
 /-- a refused element's attributes cannot show up: the skipped step is independent of the element's content -/
 theorem denied_item_content_irrelevant (env : Env) (sv : SeqVars) (i id : Nat) (a1 a2 : List (Text × Val))
